@@ -759,6 +759,9 @@ pub enum Op {
     /// `cache.load::<T>(id)` — error becomes part of the value
     Try { ty: Ty, id: String },
     Cached { ty: Ty, id: String },
+    /// `cache.get_cached::<T>(id).is_some()`: records the dependency like
+    /// `cached`, but keeps only the presence in the value
+    Peek { ty: Ty, id: String },
     /// `cache.load_owned::<T>(id)` — error becomes part of the value
     Owned { ty: Ty, id: String },
     Contains { ty: Ty, id: String },
@@ -797,6 +800,9 @@ impl Op {
             }
             Op::Owned { ty, id } => {
                 let _ = write!(out, "owned {} {} ", ty.tag(), enc(id));
+            }
+            Op::Peek { ty, id } => {
+                let _ = write!(out, "peek {} {} ", ty.tag(), enc(id));
             }
             Op::Contains { ty, id } => {
                 let _ = write!(out, "contains {} {} ", ty.tag(), enc(id));
@@ -902,13 +908,14 @@ fn parse_block(toks: &[&str], pos: &mut usize, nested: bool) -> Result<Vec<Op>, 
                 ops.push(Op::File { id, ext });
             }
             "readdir" => ops.push(Op::ReadDir { id: dec(arg("id")?) }),
-            "load" | "try" | "cached" | "owned" | "contains" | "iter" | "itercached" => {
+            "load" | "try" | "cached" | "peek" | "owned" | "contains" | "iter" | "itercached" => {
                 let ty = Ty::parse(arg("type")?).ok_or("bad type")?;
                 let id = dec(arg("id")?);
                 ops.push(match t {
                     "load" => Op::Load { ty, id },
                     "try" => Op::Try { ty, id },
                     "cached" => Op::Cached { ty, id },
+                    "peek" => Op::Peek { ty, id },
                     "owned" => Op::Owned { ty, id },
                     "contains" => Op::Contains { ty, id },
                     "iter" => Op::Iter { ty, id },
@@ -1347,6 +1354,14 @@ pub fn op_cached(cache: AnyCache, ty: Ty, id: &str) -> Option<V> {
 }
 
 #[inline(never)]
+pub fn op_peek(cache: AnyCache, ty: Ty, id: &str) -> bool {
+    fn go<T: Storable>(cache: AnyCache, id: &str) -> bool {
+        cache.get_cached::<T>(id).is_some()
+    }
+    crate::with_storable!(ty, T => go::<T>(cache, id))
+}
+
+#[inline(never)]
 pub fn op_contains(cache: AnyCache, ty: Ty, id: &str) -> bool {
     fn go<T: Storable>(cache: AnyCache, id: &str) -> bool {
         cache.contains::<T>(id)
@@ -1389,6 +1404,7 @@ pub fn run_ops(cache: AnyCache, ops: &[Op]) -> Result<Vec<V>, BoxedError> {
                 Err(e) => Err(describe_error(&e)),
             })),
             Op::Cached { ty, id } => out.push(V::Opt(op_cached(cache, *ty, id).map(Box::new))),
+            Op::Peek { ty, id } => out.push(V::Bool(op_peek(cache, *ty, id))),
             Op::Owned { ty, id } => out.push(V::Res(match op_owned(cache, *ty, id) {
                 Ok(v) => Ok(Box::new(v)),
                 Err(e) => Err(describe_error(&e)),
